@@ -67,6 +67,31 @@ KNOWN_KEYS = {
 MAX_REPLAY_LINES = 400
 
 
+# Identifiers of the crate the translators look for BY NAME (a behaviour-preserving rename of one of
+# them makes a table theorem fail: known false-alarm source, listed in the evidence).  Everything else
+# is recognised structurally.
+PINNED = {
+    "C03": ["type names: Arena, MarkedArena, Context", "type-name suffix `Builder` of the builder types that implement Drop",
+            "std paths counted as primitive destructors: core::ptr::drop_in_place, alloc::alloc::dealloc, core::mem::ManuallyDrop::drop, core::mem::drop, alloc::boxed::Box::from_raw",
+            "vtable fn-pointer fields are matched to their closures by field name (any name, but the same on both sides)"],
+    "C20": ["type names: Arena, Context, Metrics", "macro names: thread_local!, lazy_static!", "allow-list of pure std constructors (Model/CallGraphM.pureExternal)"],
+    "C09": ["module src/metrics.rs", "Pacing and its seven field names", "Pacing::DEFAULT, Pacing::STOP_THE_WORLD", "impl Default for Pacing returning Self::DEFAULT / Pacing::DEFAULT",
+            "MetricsInner and its ten field names", "Metrics(Rc<MetricsInner>)", "Metrics::new with body `Self(Default::default())`"],
+    "C13": ["module src/barrier.rs", "Write (field __inner, #[non_exhaustive])", "traits DerefWrite, IndexWrite, Unlock (method unlock_unchecked)",
+            "Write::{assume, from_static, from_mut, __from_ref_and_ptr} (constructor kinds by name)", "Write::{unlock, as_deref} and <Write as Index>::index (bodies compared token-wise), Write::as_write (structural)",
+            "Gc::write: `backward_barrier(Gc::erase(<param>), None)` before `Write::assume`", "macros __field, __unlock (shape, metavariable names free)",
+            "field name `cell` of the lock types; Cell/RefCell/OnceCell method names classified as readers", "std receiver paths (Box, Vec, Rc, Arc, VecDeque, BTreeMap, HashMap, hashbrown::HashMap)"],
+    "C16": ["trait Collect (NEEDS_TRACE, trace), trait Trace (trace, trace_gc, trace_gc_weak; default `trace` = `if P::NEEDS_TRACE { v.trace(self) }`, names free)",
+            "Gc / GcWeak leaf bodies `cc.trace_gc(Self::erase(*self))` / `trace_gc_weak`", "DynCollect::dyn_trace, TraceWrap forwarding bodies",
+            "std / hashbrown / indexmap / slotmap / smallvec / enum-map container paths (Model/CollectTy.Shape)", "crate types Lock, RefLock, OnceLock, SliceWithHeader (fields header, slice), Static",
+            "macros static_collect, __dyn_collect (arms: >= 1 each; `$crate::collect::DynCollect::dyn_trace(self, cc)`)"],
+    "C19": ["crate type paths: gc::{Gc, GcKind, GcBuilder}, gc_weak::GcWeak, dynamic_roots::DynamicRoot, slice::{SliceWithHeader, GcSliceWithHeaderBuilder, GcSliceWithHeaderSliceBuilder, GcSliceBuilder, GcStrBuilder}, "
+            "static_wrapper::Static, lock::{Lock, RefLock, OnceLock}, barrier::Write", "Rootable::Root projection", "macro unsize (shape; metavariable names free, locals `gc`, `p` fixed), __CoercePtrInternal::__coerce_unchecked"],
+}
+PINNED["C10"] = PINNED["C09"]
+PINNED["C12"] = ["(tables engine part) " + x for x in PINNED["C16"]]
+
+
 def _cfg():
     repo = os.environ.get("VERIF_TABLES_REPO") or "/repo"
     lean = os.environ.get("VERIF_TABLES_LEAN_DIR") or os.path.join(ROOT, "lean")
@@ -249,7 +274,7 @@ def members (s : Nat) : List Nat := (List.range fns.length).filter (fun i => s.t
   unless fns.length == adj.length do IO.println "VIOL graph: fns / adj length mismatch"
   for t in destructiveTags do
     let c := count (maskWhere fns (fun f => f.tag == t)) fns.length
-    unless c == 1 do IO.println s!"VIOL names: a function named in the statement occurs {c} times: {repr t}"
+    unless c ≥ 1 do IO.println s!"VIOL names: no function carries the structural tag {repr t}"
   let cl := closure adj builderDrops callbackRoots 64
   unless cl == callbackClosure do IO.println "VIOL certificate: callbackClosureCert differs from the computed closure"
   unless closedB adj builderDrops cl do IO.println "VIOL certificate: computed closure is not closed (fuel)"
@@ -260,7 +285,7 @@ def members (s : Nat) : List Nat := (List.range fns.length).filter (fun i => s.t
     match fns[i]? with
     | some f => unless (f.tag == .doCollection || exclusiveEntry f) do IO.println s!"VIOL reaches-do-collection: {i} {f.name}"
     | none => IO.println s!"VIOL reaches-do-collection: {i} ?"
-  unless markedArenaField == "&'a mut Arena<R>" do IO.println s!"VIOL marked-arena-field: {markedArenaField}"
+  unless markedArenaField == "&mut Arena" do IO.println s!"VIOL marked-arena-field: {markedArenaField}"
   if constructsMarkedArena.isEmpty then IO.println "VIOL marked-arena: no constructor found"
   for i in constructsMarkedArena do
     match fns[i]? with
@@ -276,7 +301,8 @@ open GcArena.CallGraphM GcArena.Generated.CallGraph GcArena.CallGraphDefs
     unless (s.tracingCallsite && !s.isMut) do IO.println s!"VIOL expanded-static: {s.module}::{s.name} : {s.ty} (mut={s.isMut})"
   for s in freshExternal do
     unless pureExternal s do IO.println ("VIOL fresh-external: " ++ s)
-  unless freshRoots.length == 2 do IO.println s!"VIOL fresh-roots: expected Context::new and Metrics::new, found {freshRoots.length}"
+  unless count (maskWhere fns (fun f => f.tag == .contextNew)) fns.length ≥ 1 do IO.println "VIOL fresh-roots: no constructor of `Context` found"
+  unless count (maskWhere fns (fun f => f.tag == .metricsNew)) fns.length ≥ 1 do IO.println "VIOL fresh-roots: no constructor of `Metrics` found"
   IO.println s!"INFO rawStatics={rawStatics.length} expandedStatics={expandedStatics.length} freshFns={freshFns.length} freshExternal={freshExternal.length}"
 ''',
 }
@@ -934,7 +960,7 @@ def run(prop, tier, seed):
             lines = p["src"].splitlines()
             text = f"{thm} fails for `{v}`; safe program `{p['name']}` is accepted" + (f" and unsafe when run ({r['run_out'][:100]})" if r["ran"] else "")
         else:
-            text = f"{thm} fails for `{v}` (every probe generated for this row still behaves as on an acceptable row: no failing input is exhibited)"
+            text = f"{thm} fails for `{v}` (no demonstrating program: every probe generated for this row, if any, still behaves as on an acceptable row)"
             if _is_tie_only(v):
                 text = f"{thm} cannot be established: {v} (the translator fails closed; no failing input is exhibited)"
                 if v.startswith(("pacing:", "default-impl:", "metrics-new:")):
@@ -1020,6 +1046,7 @@ def run(prop, tier, seed):
                             [f"property C16, features `{ft}`: entry violates completeness", v], [v], key=f"table-{_slug(v, 70)}")
         res["summary"]["per_feature"] = per
 
+    res["summary"]["pinned_identifiers"] = PINNED.get(prop, [])
     res["summary"]["timings"] = dict(timings, total=round(time.time() - t0, 2))
     res["summary"]["source_state"] = dict(repo=cfg["repo"], raw_hash=tables.get("raw_hash"), expanded_hash=tables.get("expanded_hash"))
     if rows:
